@@ -107,6 +107,14 @@ pub fn c02(out: &mut Out, tier: &str, rng: &mut Rng) {
     exhaustive_trees::<average::Kurtosis>(out, ALPHABET, max_n, max_k, rng, &allow_all);
     exhaustive_trees::<M4>(out, ALPHABET, max_n, max_k.min(4), rng, &allow_all);
     exhaustive_trees::<M6>(out, ALPHABET, max_n.min(5), max_k.min(4), rng, &allow_all);
+    for t in special_trees() {
+        merged::<average::Mean>(out, &t, Trace::None, rng, &allow_all);
+        merged::<average::Variance>(out, &t, Trace::None, rng, &allow_all);
+        merged::<average::Skewness>(out, &t, Trace::None, rng, &allow_all);
+        merged::<average::Kurtosis>(out, &t, Trace::None, rng, &allow_all);
+        merged::<average::Moments4>(out, &t, Trace::None, rng, &allow_all);
+        merged::<M6>(out, &t, Trace::None, rng, &allow_all);
+    }
     sampled_trees::<average::Mean>(out, tier, rng, &allow_all, -25.0, 25.0);
     sampled_trees::<average::Variance>(out, tier, rng, &allow_all, -25.0, 25.0);
     sampled_trees::<average::Skewness>(out, tier, rng, &allow_all, -25.0, 25.0);
@@ -221,6 +229,15 @@ pub fn c10(out: &mut Out, tier: &str, rng: &mut Rng) {
                     single_pass::<average::Variance>(out, &d, Trace::None, rng, &allow);
                 }
             }
+        }
+    }
+    // WeightedMeanWithError: sample variance of the unweighted observations, zero weights anywhere
+    for n in 1..=9usize {
+        for zp in 0..5 {
+            let (xs, _) = dataset_in(rng, n, 1e6, -20.0, 20.0, C03_FAMS);
+            let ws = crate::props_pair::weights(rng, n, zp);
+            let data: Vec<(f64, f64)> = xs.iter().cloned().zip(ws.iter().cloned()).collect();
+            crate::props_pair::weighted_case::<average::WeightedMeanWithError>(out, &crate::props_pair::PTree::Leaf(data), Trace::None, rng);
         }
     }
     // the witness of the repaired defect
